@@ -47,6 +47,9 @@ def _worker(args):
     os.makedirs(base, exist_ok=True)
     pids = idents(rnd, 4, adversarial)          # the SAME identifiers in every configuration
     fmts = [None, "http://ns.example/fmt2"]
+    if adversarial:
+        # format ids are hashed as given: padded spellings are different documents
+        fmts += [" http://ns.example/fmt2", "http://ns.example/fmt2\n", "eml://ecoinformatics.org/eml 2.0.1"]
     cx = os.path.join(base, "x")
     cy = os.path.join(base, "y")
     with open(cx, "wb") as f:
@@ -79,12 +82,13 @@ def _worker(args):
         step(st.store_object, p4, cx)
         omy = step(st.store_object, None, cy)
         step(st.store_metadata, p1, md)
-        step(st.store_metadata, p1, md, fmts[1])
+        for f_ in fmts[1:]:
+            step(st.store_metadata, p1, md, f_)
         cidx = hashlib.new(h, open(cx, "rb").read()).hexdigest()
         cidy = hashlib.new(h, open(cy, "rb").read()).hexdigest()
         live = [p1, p3, p4]
         common = {"depth": d, "width": w, "algo": algo, "cfg": ci}
-        expect = {"obj": 2, "pidref": 3, "cidref": 1, "doc": 2, "yaml": 1}
+        expect = {"obj": 2, "pidref": 3, "cidref": 1, "doc": len(fmts), "yaml": 1}
         found = {"obj": 0, "pidref": 0, "cidref": 0, "doc": 0, "yaml": 0}
         hp = {H(p): p for p in live}
         hdoc = {(H(p1), H(p1 + (f or NS))): f for f in fmts}
